@@ -35,7 +35,8 @@ class Exec(Core):
         Core.__init__(self)
         self.repo = repo
         self.registry = registry or {}     # key -> Contract (callee contracts)
-        self.class_specs = class_specs or {}   # class name -> {field: Sort}
+        self.class_specs = dict(class_specs or {})   # class name -> {field: Sort}
+        self.class_specs.setdefault('CIMError', {'status_code': Int, 'status_description': Opt(Str)})
         self.exc_fields = exc_fields or {'CIMError': {'status_code': 0, 'status_description': 1}}
         self.frames = []
         self.top_contract = None
